@@ -173,3 +173,65 @@ def c07(ctx):
                    "libFuzzer campaigns are only approximately pinned by -seed; saved artifacts are the reproducible unit"]
     return fuzz_pair_check(ctx, [("fz_jwks_raw", ["C07/raw"]), ("fz_jwks_shape", [])], rule, assumptions, 40, 600, 16384,
                            {"quick": 2000, "thorough": 20000}.get(ctx.tier, 2000))
+
+
+# ---------------------------------------------------------------- C04
+harness_job("C04_claims")
+std_replayer("C04", "C04_claims")
+
+
+@P.check("C04")
+def c04(ctx):
+    """claim policy: histories of claim_set/claim_del/time_leeway + boundary-relative tokens vs a two-sided reference model under a fake clock"""
+    rule = ("rapidcheck: histories (1-17 steps) of jwt_checker_claim_set/claim_del/time_leeway (valid and invalid arguments), clock jumps and verify calls on two "
+            "long-lived checkers (unsigned alg-none tokens without key; HS256 tokens with key). Each token is generated relative to the policy in force: exp/nbf = "
+            "boundary+delta (delta in -2..2), 64-bit extremes, random, or a wrong JSON type (real, exponent, string, bool, null, array, object, beyond int64); iss/sub/aud "
+            "absent, equal, prefix, extended, case-changed, empty, other, trailing space, wrong JSON type, or containing an escaped NUL. Oracle: verdict == reference policy "
+            "(both directions), return codes of configuration calls, jwt_checker_claim_get == model after every step. Non-trivial = verify decided within |delta|<=1 of a "
+            "boundary, by a wrong-typed claim, by a confusion string, or after a claim_del; distinct by hash of (payload, clock, leeways, expected claims, checker).")
+    assumptions = ["clock in [0,2^41], leeways in negatives or [0,2^40] (no time_t overflow provoked)", "strings are valid UTF-8 without embedded NUL",
+                   "the model follows the code for the leeway sign (exp > now - leeway, nbf <= now + leeway), as the statement does",
+                   "a payload jansson cannot parse with the library's flags (escaped NUL, integer beyond int64) is expected to be rejected"]
+    cov, mn = P.generic_harness_check(ctx, "C04_claims", rule, assumptions, min_nontrivial={"quick": 20000, "thorough": 200000})
+    return P.finish(ctx, "exploration", cov, assumptions, mn)
+
+
+# ---------------------------------------------------------------- C15
+harness_job("C15_map")
+std_replayer("C15", "C15_map")
+
+
+@P.check("C15")
+def c15(ctx):
+    """typed map: exhaustive short op sequences + random long ones vs std::map model on builders and callback jwt_t objects"""
+    rule = ("all sequences of length <=3 (thorough: <=4) over a 34-operation alphabet (set INT/STR/BOOL/JSON with and without replace, colliding names, empty and NULL names, "
+            "NULL string, malformed/scalar/duplicate-key JSON, whole-object merge with and without replace, typed gets, delete one/all) on six targets (builder headers, builder "
+            "claims, the jwt_t of a generate callback and of a verify callback, headers and claims each); plus rapidcheck sequences of length 1-40 over the full op product "
+            "(7 names x value tables at type boundaries). Oracle: std::map model of the statement: return code, value.error, returned value, and whole-object snapshot "
+            "json_equal to the model after every operation. Non-trivial = sequence with a collision, a merge over existing members, or delete-all followed by a set; "
+            "distinct by hash of (target, operation list).")
+    assumptions = ["names and strings are valid UTF-8 without embedded NUL", "GET JSON of a scalar member may return TYPE or INVALID",
+                   "only object payloads are used for the verify-callback target"]
+    cov, mn = P.generic_harness_check(ctx, "C15_map", rule, assumptions, exhaustive=True, min_nontrivial={"quick": 20000, "thorough": 200000})
+    return P.finish(ctx, "exploration", cov, assumptions, mn)
+
+
+# ---------------------------------------------------------------- C16
+harness_job("C16_keyring")
+std_replayer("C16", "C16_keyring")
+LEAK_ENV = {"ASAN_OPTIONS": ck.SAN_ENV["ASAN_OPTIONS"].replace("detect_leaks=0", "detect_leaks=1") + ":leak_check_at_exit=0"}
+
+
+@P.check("C16")
+def c16(ctx):
+    """keyring as ordered list: exhaustive short op sequences + random long ones vs vector model, ASan + per-sequence LSan"""
+    rule = ("all sequences of length <=4 (thorough: <=5) over a 16-operation alphabet (load good key / duplicate kid / no kid / bad key / mixed set good,bad,good / EC key / "
+            "non-JSON / empty keys array via jwks_load, jwks_load_strn and jwks_load_fromfp in rotation; item_get and item_free at first/middle/last/count/count+7; "
+            "find_bykid existing/prefix/absent/extended/duplicate; free_bad; free_all; error_clear), plus rapidcheck sequences of length 1-60. Every loaded key carries a "
+            "unique tag (oct key bytes / kid). Oracle: vector model - every return value, and after every operation count, identity and error flag of each item_get(i), "
+            "NULL at and beyond count, jwks_error and jwks_error_any; ASan on every step; __lsan_do_recoverable_leak_check() after freeing the set of every sequence. "
+            "Non-trivial = a removal followed by a load or indexed access, or a find among duplicate kids; distinct by hash of the operation list.")
+    assumptions = ["find_bykid is never called with NULL (undocumented)", "LSan attributes a leak to the sequence after which it is first seen"]
+    cov, mn = P.generic_harness_check(ctx, "C16_keyring", rule, assumptions, exhaustive=True, env_extra=LEAK_ENV,
+                                      min_nontrivial={"quick": 5000, "thorough": 100000})
+    return P.finish(ctx, "exploration", cov, assumptions, mn)
